@@ -436,8 +436,9 @@ func (h *itHandle) collect(c *Ctx, p *packages.Package, outer *ast.FuncDecl, sta
 			}
 		case *ast.SendStmt:
 			// X.pointer.channel <- batch
-			if s1, ok := ast.Unparen(x.Chan).(*ast.SelectorExpr); ok && s1.Sel.Name == "channel" {
-				if s2, ok := ast.Unparen(s1.X).(*ast.SelectorExpr); ok && s2.Sel.Name == "pointer" && denotes(s2.X) {
+			// X.<ptr>.<chan> <- batch : a raw send on the channel of the handle (fields identified by type, not by name)
+			if s1, ok := ast.Unparen(x.Chan).(*ast.SelectorExpr); ok && isBatchChan(info.TypeOf(s1)) {
+				if s2, ok := ast.Unparen(s1.X).(*ast.SelectorExpr); ok && denotes(s2.X) {
 					ev := &itEvent{kind: "Push", send: x, arg: x.Value, body: cur(), node: x, path: pathCopy()}
 					if inlineNode != nil {
 						ev.node, ev.path, ev.bind = inlineNode, inlinePath, inlineBind
@@ -566,4 +567,13 @@ func syncClosures(info *types.Info, outer *ast.FuncDecl, lits map[types.Object]*
 		}
 	}
 	return out
+}
+
+// isBatchChan: chan BioSequenceBatch
+func isBatchChan(t types.Type) bool {
+	if t == nil {
+		return false
+	}
+	ch, ok := t.Underlying().(*types.Chan)
+	return ok && namedTypeName(ch.Elem()) == modPath+"/pkg/obiiter.BioSequenceBatch"
 }
